@@ -737,8 +737,35 @@ def rule_key_arith(ctx):
     return obs
 
 
+def rule_precision(ctx):
+    """the canonical-segment geometry (intersection point, slope range, floating-point segment) is evaluated in long double:
+    no arithmetic result or cast of a narrower floating type occurs in those functions (a double has 53 bits: absolute 64-bit
+    keys lose their low bits, which shifts every intercept derived from the intersection point)"""
+    obs = []
+    CS = OPLM + '::CanonicalSegment::'
+    for tn in (CS + 'get_intersection', CS + 'get_floating_point_segment', CS + 'get_slope_range', OPLM + '::Slope::operator long double'):
+        for f in ctx.need(tn, ctx.units):
+            u = f.unit
+            bad = []
+            n = 0
+            for i in f.all_ids():
+                nd = f.n(i)
+                if not reachable(f, i):
+                    continue
+                t = u.type(nd.get('t', 0)) if nd.get('t') else None
+                if not t or t.get('k') != 'float':
+                    continue
+                if nd['c'] in ('BinaryOperator', 'CompoundAssignOperator') or nd['c'] in ('CStyleCastExpr', 'CXXStaticCastExpr', 'CXXFunctionalCastExpr'):
+                    n += 1
+                    if t['s'] != 'long double':
+                        bad.append(f"`{fmt_term(f.term(i, inline=False))[:60]}` has type {t['s']} (line {nd['l']})")
+            obs.append(Ob('PRECISION', f, 0, 'all floating arithmetic and casts of the segment geometry are long double',
+                          f"{n} floating operations, all long double" if not bad else bad[0], OK if not bad else VIOLATED, arm=f.name))
+    return obs
+
+
 def rules_c03(ctx):
-    return rule_no_drop(ctx) + rule_rank_agree(ctx) + rule_omp_order(ctx) + rule_key_arith(ctx) + [o for o in rule_geom_guards(ctx) if o.rule == 'GEOM-GUARDS']
+    return rule_no_drop(ctx) + rule_rank_agree(ctx) + rule_omp_order(ctx) + rule_key_arith(ctx) + [o for o in rule_geom_guards(ctx) if o.rule == 'GEOM-GUARDS'] + rule_precision(ctx)
 
 
 def rules_c04(ctx):
